@@ -75,9 +75,9 @@ import io, contextlib
 buf = io.StringIO()
 _stdout = sys.stdout
 sys.stdout = buf
-print("| change | property | needs to manifest | caught by (signature of the first violation) | first attempt |")
-print("|---|---|---|---|---|")
-for d in sorted(glob.glob(os.path.join(VERIF, "seeded", "*-*"))):
+print("| change | property | needs to manifest | caught by (signature of the first violation) | violating runs of 3000-6000 | first attempt |")
+print("|---|---|---|---|---|---|")
+for d in sorted(glob.glob(os.path.join(VERIF, "seeded", "*-*")), key=lambda x: (os.path.basename(x).split("-")[0], int(os.path.basename(x).split("-")[1]))):
     name = os.path.basename(d)
     mp = os.path.join(d, "meta.json")
     meta = json.load(open(mp))
@@ -85,13 +85,16 @@ for d in sorted(glob.glob(os.path.join(VERIF, "seeded", "*-*"))):
     caught = [r for r in res if r["caught"]]
     if name in verify:
         meta["confirmed_here"] = dict(verify[name], how="tools/verify_seeded.sh: demo.py on /repo (exit 0) and on a patched scratch copy (exit 1); tools/baseline.py on the patched copy (all 3628 baseline tests pass)")
-    meta["detection"] = {"caught": bool(caught), "signatures": sorted({s for r in caught for s in r["signatures"]})[:4], "command": f"tools/mutant.sh seeded/{name}/patch.diff {meta['property']} 6000",
+    hits = max([r.get("violating_runs", 0) for r in caught] or [0])
+    meta["detection"] = {"caught": bool(caught), "signatures": sorted({s for r in caught for s in r["signatures"]})[:4], "violating_runs": hits, "command": f"tools/mutant.sh seeded/{name}/patch.diff {meta['property']} 6000",
                          "missed_at_first": name in MISSED_FIRST, "strengthened_because": MISSED_FIRST.get(name)}
     if name in NOT_APPLICABLE:
         meta["detection"]["outside_property"] = NOT_APPLICABLE[name]
     json.dump(meta, open(mp, "w"), indent=1)
     needs = str(meta.get("needs_to_manifest", ""))[:160].replace("|", "/").replace("\n", " ")
-    print(f"| seeded/{name} | {meta['property']} | {needs} | {', '.join(meta['detection']['signatures'][:2]) or ('not a violation of the property as stated' if name in NOT_APPLICABLE else 'MISSED')} | {'missed, then caught after: ' + MISSED_FIRST[name] if name in MISSED_FIRST else 'caught'} |")
+    print(f"| seeded/{name} | {meta['property']} | {needs} | {', '.join(meta['detection']['signatures'][:2]) or ('not a violation of the property as stated' if name in NOT_APPLICABLE else 'MISSED')} | {hits}{'+' if hits and len(meta['detection']['signatures']) >= 3 else ''} | {'missed, then caught after: ' + MISSED_FIRST[name] if name in MISSED_FIRST else 'caught'} |")
+print()
+print("(violating runs: a lower bound - a run of the check stops early once three different signatures have been seen, marked +)")
 print()
 print("| own mutant | property | caught by |")
 print("|---|---|---|")
